@@ -123,6 +123,7 @@ def execute(sc):
                             opcode_files=[FILES['filelock']] if sc.get('opcodes') else (),
                             max_steps=sc.get('max_steps', 40000)))
     ctl.interesting = _INTERESTING
+    ctl.stalls = {k: v for k, v in sc.get('stalls', {}).items()}     # thread -> [nth aiuti line, virtual seconds]
     shim = Shim(ctl)
     for f in sc.get('faults', []):
         shim.plan.setdefault(f['site'], set()).add(f['nth'])
